@@ -37,6 +37,7 @@ def gen_case(rng):
         case["c"] = rng.choice([(2, 1), (3, 1)])
         case["rel"] = rng.choice(cs.RELS)
         case["sympos"] = rng.randrange(3)
+        case["cancel"] = rng.random() < 0.5     # one more term whose coefficient (s - c) is exactly 0 at the substituted value
     elif kind == "gate":
         case["spin"] = False
         gate = rng.choice(cs.GATES)
@@ -80,6 +81,8 @@ def build(case, lam):
         coefs[case["sympos"]] = sval
         P = {(l,): co for l, co in zip(labs, coefs)}
         P[()] = -2
+        if case.get("cancel") and not numeric:
+            P[(case["labels"][3],)] = sval - cnum
         Pnum = {(l,): (cnum if i == case["sympos"] else 1) for i, l in enumerate(labs)}
         Pnum[()] = -2
         bounds = cs.true_extrema(Pnum, spin)
